@@ -53,11 +53,12 @@ def seed_randomness(seed):
     random.seed(core.h64(seed, "lib-random"))
 
 
-def gc_point():
+def gc_point(gen=2):
     """the cyclic garbage collector is a scheduler of its own (finalizers run whenever it decides to): it is switched off in
     workers and runs only here -- at the start and end of every run and at the points a plan names -- so that one plan is one
-    execution also for code with __del__ methods"""
-    gc.collect()
+    execution also for code with __del__ methods.  `gen` selects the generation that is collected (CPython's collector is
+    generational: an object that survived a collection while it was reachable is finalised later than a younger one)"""
+    gc.collect(gen)
 
 
 def setup_plain():
@@ -163,9 +164,11 @@ def wipe_sse():
 async def server_main():
     """the repo's real server entry point, frontend/server/connector.run_server, on a fresh manager --
     what a freshly started server process has"""
+    import importlib
     import frontend.server.connector as conn
-    import frontend.server.services.services_manager as sm
-    conn._sse_service_manager = sm.ServicesManager()
+    # module-level state of the server's entry module as a new process has it: re-execute the module (its connection
+    # manager, however it is created, starts from scratch)
+    conn = importlib.reload(conn)
     await conn.run_server("simhost", 8001)
 
 
